@@ -8,6 +8,7 @@ require (
 	github.com/ava-labs/avalanchego v1.13.1-rc.0.0.20250414210208-c8b3f57d2a25
 	github.com/ava-labs/hypersdk v0.0.0
 	github.com/ava-labs/hypersdk/examples/morpheusvm v0.0.0
+	github.com/gorilla/websocket v1.5.0
 	github.com/prometheus/client_golang v1.16.0
 	github.com/supranational/blst v0.3.14
 	go.opentelemetry.io/otel v1.22.0
@@ -37,7 +38,6 @@ require (
 	github.com/google/btree v1.1.2 // indirect
 	github.com/google/renameio/v2 v2.0.0 // indirect
 	github.com/gorilla/rpc v1.2.0 // indirect
-	github.com/gorilla/websocket v1.5.0 // indirect
 	github.com/grpc-ecosystem/grpc-gateway/v2 v2.16.0 // indirect
 	github.com/hdevalence/ed25519consensus v0.2.0 // indirect
 	github.com/kr/pretty v0.3.1 // indirect
